@@ -111,7 +111,7 @@ var vhShapes = [8][2]int{{1, 1}, {1, 2}, {2, 1}, {2, 2}, {1, 3}, {2, 3}, {3, 1},
 // the thorough tier. Harnesses using it carry //verif:shards 8.
 func vhTreeShape() (depth, fan int) {
 	k := verifShard(8)
-	if k >= 4 && verifTier() == 0 {
+	if k >= 4 && k != 6 && verifTier() == 0 {
 		verifAssume(false)
 	}
 	return vhShapes[k][0], vhShapes[k][1]
